@@ -138,6 +138,14 @@ def validate(chk, obs_path, shards, workers):
     return scen, done, devs, mism
 
 
+def names_of(sc):
+    """element names <<a, b, c>> back from the concrete paths the harness recorded (["/", "/a", "/a/b", "/c"])"""
+    n = sc.get("names")
+    if not n:
+        return ["a", "b", "c"]
+    return [n[1][1:], n[2].rsplit("/", 1)[1], n[3][1:]]
+
+
 def ops_of(sc, upto=None):
     st = sc["steps"] if upto is None else sc["steps"][:upto]
     return [{"op": s["op"], "p": s["p"], "i": s["i"], "v": s["v"]} for s in st]
@@ -149,7 +157,7 @@ def classify(chk, pid, scen, done, devs, mism):
     # steps explained only with a deviation
     for d in devs:
         sc = scen[d["id"]]
-        rp = {"ops": ops_of(sc, d["step"])}
+        rp = {"ops": ops_of(sc, d["step"]), "names": names_of(sc)}
         if d["dev"] == "mirror":
             if pid != "C25":
                 continue
@@ -169,7 +177,7 @@ def classify(chk, pid, scen, done, devs, mism):
         sc = scen[sid]
         whats = {m["what"] for m in ms}
         hit = sorted(whats & mine)
-        rp = {"ops": ops_of(sc, ms[0]["step"])}
+        rp = {"ops": ops_of(sc, ms[0]["step"]), "names": names_of(sc)}
         if hit:
             o = ms[0]["op"]
             key = "%s:%s:%s:%s" % (hit[0], o[0], o[2], "root" if o[1] == "/" else "nonroot")
@@ -286,10 +294,11 @@ def run(pid, tier, replay):
         j = min(5, len(s["steps"]) - 1)
         if pid == "C25":
             j = max(k for k in range(min(12, len(s["steps"]))) if s["steps"][k]["sigs"] or k == 0)
-        chk.sample({"id": i, "ops": ops_of(s)[:j + 1], "after_last_op": {k: s["steps"][j].get(k) for k in (
+        chk.sample({"id": i, "names": names_of(s), "ops": ops_of(s)[:j + 1], "after_last_op": {k: s["steps"][j].get(k) for k in (
             "res", "look", "call", "intro", "kids", "listing", "sigs")}})
     chk.assumptions += [
-        "the universe is 4 paths (root, /a, /a/b, /c) x {I1, I2, ObjectManager}; longer paths and other interface types behave alike",
+        "the universe is 4 tree positions (root, /a, /a/b, /c) x {I1, I2, ObjectManager}, replayed under the 6 element namings of ObjTree!Namings "
+        "(repeated elements, substrings, prefixes); deeper trees and other interface types behave alike",
         "the standard interfaces zbus adds to every node (Peer, Introspectable, Properties) are abstracted away",
         "the harness projection (harness/obj/src/tree.rs) reports what the public API returns; TLC evaluates ObjTree correctly",
     ]
@@ -302,7 +311,7 @@ def do_replay(chk, pid, obj, path):
     ops = rp["replay"]["ops"]
     case = chk.path("replay_case.ndjson")
     with open(case, "w") as f:
-        f.write(json.dumps({"id": 0, "ops": ops}) + "\n")
+        f.write(json.dumps({"id": 0, "ops": ops, "names": rp["replay"].get("names", ["a", "b", "c"])}) + "\n")
     obs = chk.path("replay_obs.ndjson")
     core.run_bin(obj, ["tree-replay", case, obs])
     scen, done, devs, mism = validate(chk, obs, shards=1, workers=1)
